@@ -36,12 +36,20 @@ Fixpoint zlist_eqb (a b : list Z) : bool :=
    hash), index of the previous beacon value, messages (sender, index of the claimed data hash, share,
    beacon share), observed (outcome, party end) per message, senders in the recovery set in order of
    admission, "recovered", recovered block signature and beacon value (as scalars) *)
+(* one run: member count, threshold the node used, the node's member table (id, sign key), the group
+   secret, "block already on the chain", fictional logarithms of the base points (index 0 = block
+   hash), index of the previous beacon value; messages are (message id = number of the byte string,
+   sender, index of the claimed data hash, share, beacon share).
+   [deliv]: messages handed to the party while round0 was still checking, with the observed "stored"
+   flag of each; [rorder]: ids in the order round1.Start replayed them, [robs] the outcome of each,
+   [fterm] the party end after the replay; [msgs]/[obs]: later messages with (outcome, party end),
+   outcome 11 = refused on its id; senders in the recovery set in order of admission, "recovered",
+   recovered block signature and beacon value (as scalars) *)
+Definition zmsg := (nat * Z * nat * pt Z * pt Z)%type.
 Inductive case :=
 | CRun (n : Z) (thr : nat) (members : list (Z * Z)) (gsk : Z) (existed : bool) (hs : list Z) (pr : nat)
-       (* messages replayed by round1.Start in the order the node processed them, outcome of each,
-          party end after the replay *)
-       (fut : list (Z * nat * pt Z * pt Z)) (fobs : list N) (fterm : N)
-       (msgs : list (Z * nat * pt Z * pt Z)) (obs : list (N * N)) (admitted : list Z)
+       (deliv : list zmsg) (dflags : list bool) (rorder : list nat) (robs : list N) (fterm : N)
+       (msgs : list zmsg) (obs : list (N * N)) (admitted : list Z)
        (rec : bool) (gs rs : Z)
   (* classes of the top-level guards of round1.Update in source order, as read from the AST *)
 | CGuards (codes : list N).
@@ -58,17 +66,18 @@ Fixpoint nlist_eqb (a b : list N) : bool :=
   | _, _ => false
   end.
 
-Definition mk_msg (m : Z * nat * pt Z * pt Z) : @msg Z nat :=
-  let '(s, d, a, b) := m in Msg s d a b.
+Definition mk_imsg (m : zmsg) : nat * @msg Z nat :=
+  let '(i, s, d, a, b) := m in (i, Msg s d a b).
 
 (* A signer id longer than 32 bytes makes groupsig.ID.Serialize panic in the handler's first log line;
-   baseParty.Update recovers, the message is dropped and the party goes on: such messages (observed
-   outcome 12 = "panic recovered", or 9/10 when the party had already ended; no party end) are removed
-   before the model runs. *)
-Definition long_id (m : Z * nat * pt Z * pt Z) : bool := let '(s, _, _, _) := m in (2 ^ 256 <=? s).
+   the party (baseParty.Update, and round1.Start's replay) recovers, the message is dropped and the
+   party goes on.  Such messages are removed before the model runs; their observed outcome must be
+   12 = "panic recovered" (or 9/10/11 when the party had ended or the id was already refused). *)
+Definition long_id (m : zmsg) : bool := let '(_, s, _, _, _) := m in (2 ^ 256 <=? s).
+Definition id_of (m : zmsg) : nat := let '(i, _, _, _, _) := m in i.
 
-Fixpoint drop_long {A : Type} (ms : list (Z * nat * pt Z * pt Z)) (obs : list A) (isp : A -> bool)
-  : option (list (Z * nat * pt Z * pt Z) * list A) :=
+Fixpoint drop_long {A : Type} (ms : list zmsg) (obs : list A) (isp : A -> bool)
+  : option (list zmsg * list A) :=
   match ms, obs with
   | [], _ => Some ([], obs)
   | m :: ms', o :: obs' =>
@@ -79,26 +88,63 @@ Fixpoint drop_long {A : Type} (ms : list (Z * nat * pt Z * pt Z)) (obs : list A)
   | _ :: _, [] => None
   end.
 
+Fixpoint blist_eqb (a b : list bool) : bool :=
+  match a, b with
+  | [], [] => true
+  | x :: a', y :: b' => Bool.eqb x y && blist_eqb a' b'
+  | _, _ => false
+  end.
+
+(* the stored entries in the observed replay order *)
+Definition reorder (stored : list (nat * @msg Z nat)) (ids : list nat) : list (nat * @msg Z nat) :=
+  flat_map (fun i => filter (fun p => Nat.eqb (fst p) i) stored) ids.
+
+Fixpoint iobs_eqb (a : list iout) (b : list (N * N)) : bool :=
+  match a, b with
+  | [], [] => true
+  | IRefused :: a', (o2, t2) :: b' => (o2 =? 11)%N && (t2 =? 0)%N && iobs_eqb a' b'
+  | IOut (o1, t1) :: a', (o2, t2) :: b' => (ocode o1 =? o2)%N && (tcode t1 =? t2)%N && iobs_eqb a' b'
+  | _, _ => false
+  end.
+
 Definition check (c : case) : bool :=
   match c with
-  | CRun n thr members gsk existed hs pr fut fobs fterm msgs0 obs0 admitted rec gs rs =>
-      match drop_long msgs0 obs0 (fun o => ((fst o =? 12) || (fst o =? 9) || (fst o =? 10))%N && (snd o =? 0)%N) with
-      | None => false
-      | Some (msgs, obs) =>
-      let e := Env 0%nat pr members thr existed gsk in
-      let '(ps0, l0, t0) := zparty_start r hs true e (map mk_msg fut) in
-      let '(pf, l) := zparty_run_from r hs true e ps0 (map mk_msg msgs) in
-      let st := p_st pf in
-      (group_k n =? Z.of_nat thr)
-      && nlist_eqb (map ocode l0) fobs && (tcode t0 =? fterm)%N
-      && obs_eqb l obs
-      && zlist_eqb (map fst (g_map (st_g st))) admitted
-      && zlist_eqb (map fst (g_map (st_r st))) admitted
-      && match g_sig (st_g st), g_sig (st_r st) with
-         | Some a, Some b => rec && zveq r a gs && zveq r b rs
-         | None, None => negb rec
-         | _, _ => false
-         end
+  | CRun n thr members gsk existed hs pr deliv0 dflags0 rorder0 robs0 fterm msgs0 obs0 admitted rec gs rs =>
+      let longids := map id_of (filter long_id deliv0) in
+      let keep_id i := negb (existsb (Nat.eqb i) longids) in
+      match drop_long deliv0 dflags0 (fun _ => true),
+            drop_long msgs0 obs0 (fun o => ((fst o =? 12) || (fst o =? 9) || (fst o =? 10) || (fst o =? 11))%N && (snd o =? 0)%N) with
+      | Some (deliv, dflags), Some (msgs, obs) =>
+        (* replayed long-id messages: outcome 12 *)
+        let rpairs := combine rorder0 robs0 in
+        let rkept := filter (fun p => keep_id (fst p)) rpairs in
+        forallb (fun p => keep_id (fst p) || (snd p =? 12)%N) rpairs &&
+        let rorder := map fst rkept in let robs := map snd rkept in
+        let e := Env 0%nat pr members thr existed gsk in
+        let '(stored, flags) := istore nat Nat.eqb [] (map mk_imsg deliv) in
+        let fut := reorder stored rorder in
+        let '(ip0, l0, t0) :=
+          istart (zq r) Z.eqb (zveq r) (Z.eqb 0) (zvz r) Nat.eqb (zH hs) zsel nat (fun _ => fut) true e stored in
+        let '(ipf, l) :=
+          irun (zq r) Z.eqb (zveq r) (Z.eqb 0) (zvz r) Nat.eqb (zH hs) zsel nat Nat.eqb true e ip0 (map mk_imsg msgs) in
+        let st := p_st (ip_ps nat ipf) in
+        (group_k n =? Z.of_nat thr)
+        && blist_eqb flags dflags
+        && (Nat.eqb (length rorder0) (length robs0))
+        && (match t0 with
+            | TErrExisted => true
+            | _ => (length fut =? length stored)%nat && nlist_eqb (map ocode l0) robs
+            end)
+        && (tcode t0 =? fterm)%N
+        && iobs_eqb l obs
+        && zlist_eqb (map fst (g_map (st_g st))) admitted
+        && zlist_eqb (map fst (g_map (st_r st))) admitted
+        && match g_sig (st_g st), g_sig (st_r st) with
+           | Some a, Some b => rec && zveq r a gs && zveq r b rs
+           | None, None => negb rec
+           | _, _ => false
+           end
+      | _, _ => false
       end
   | CGuards codes => nlist_eqb codes guard_order
   end.
